@@ -348,7 +348,8 @@ def check(plan: Dict[str, Any], execution: Dict[str, Any], props: Optional[Set[s
                     # whatever the writer was producing is torn now
                     for key in ("dst", "path"):
                         if o.get(key):
-                            ws.files[o[key]] = {"doc": None, "torn": True, "format": "?", "tool_written": True}
+                            ws.files[o[key]] = {"doc": None, "torn": True, "format": "?", "tool_written": True,
+                                                "torn_in_session": si}
                     continue
                 if touches_torn:
                     res.probe("op_on_torn_file_raised")
@@ -388,6 +389,12 @@ def check(plan: Dict[str, Any], execution: Dict[str, Any], props: Optional[Set[s
             elif kind == "write_trace":
                 src = ws.files.get(o["src"])
                 for name, info in obs["files"].items():
+                    if ws.files.get(name, {}).get("torn_in_session") == si:
+                        # the writer object of the failed attempt is still alive in this interpreter and is
+                        # finalised at some later moment (it then flushes into the file, whatever has been
+                        # written to that path since): the path stays unjudged until the session ends
+                        res.probe("rewrite_after_failed_write_in_same_session")
+                        continue
                     fmt = "gz" if name.endswith(".gz") else "json"
                     if not info.get("valid"):
                         res.violate("C20", f"written-file-not-a-trace/write_trace/{fmt}", {"file": name}, si, r["i"])
@@ -404,6 +411,8 @@ def check(plan: Dict[str, Any], execution: Dict[str, Any], props: Optional[Set[s
                         res.probe("format_changed_by_write_trace")
             elif kind == "update_rank":
                 before = ws.files.get(o["path"])
+                if before is not None and before.get("torn_in_session") == si:
+                    continue
                 if o["path"] not in obs["files"] and before is not None and before.get("doc") is not None:
                     # the call returned but the bytes on disk did not change
                     res.oracle_evals += 1
